@@ -359,11 +359,13 @@ def Net.addrBits : Net → Nat
   | .v4 _ _ => 32
   | .v6 _ _ => 128
 
-/-! ### Packet.VerifyChecksums (packet.go, after proposed_fixes/cksum-3-packet-verify-network-layer)
+/-! ### Packet.VerifyChecksums (packet.go)
 
   The loop over the decoded layers.  Each layer is represented by what its VerifyChecksum returns
-  (`none`: the layer is not a LayerWithChecksum).  After the fix a TCP/UDP/ICMPv6 layer is verified
-  against the most recent network layer before it, which is how the caller computes its entry. -/
+  (`none`: the layer is not a LayerWithChecksum).  A TCP/UDP/ICMPv6 layer is verified against the
+  network layer the CALLER attached with SetNetworkLayerForChecksum (API precondition; decoding does
+  not attach it and VerifyChecksums must stay a pure reader — C02), which is how the caller computes
+  its entry. -/
 
 /-- one entry of the mismatch list: layer index, Correct, Actual -/
 abbrev Mismatch := Nat × Nat × Nat
